@@ -59,6 +59,7 @@ class Engine:
         self.paths_killed = 0
         self.loop_specs_used = set()
         self.frame_violations = []
+        self.loop_extra = {}
         self.allow_self_store = False
 
     # ================================================================= helpers
@@ -874,7 +875,7 @@ class Engine:
             k0 = t.ZERO
             nterm = it.n          # may be None for unbounded (itertools.count)
         # 1. entry obligations
-        view = LoopView(self, st, entry, k0, nterm)
+        view = LoopView(self, st, entry, k0, nterm, self.loop_extra)
         for label, cond, *rest in spec.inv(view):
             self.emit(st, '%s/loop[%s]/entry/%s' % (fname, text, label), cond, kind='loop-entry', tags=spec.tags)
         # 2. havoc
@@ -886,7 +887,7 @@ class Engine:
             head.assume(t.ge(kvar, t.ZERO))
             if nterm is not None:
                 head.assume(t.le(kvar, nterm))
-        hview = LoopView(self, head, entry, kvar, nterm)
+        hview = LoopView(self, head, entry, kvar, nterm, self.loop_extra)
         for label, cond, *rest in spec.inv(hview):
             head.assume(cond)
         out = []
@@ -913,7 +914,7 @@ class Engine:
                     starts = self.assign(n.target, item, a)
                 else:
                     starts = [(a, None)]
-                var0 = spec.variant(LoopView(self, a, entry, kvar, nterm)) if spec.variant else None
+                var0 = spec.variant(LoopView(self, a, entry, kvar, nterm, self.loop_extra)) if spec.variant else None
                 for st1, fl0 in starts:
                     if fl0 is not None:
                         out.append((st1, fl0))
@@ -921,7 +922,7 @@ class Engine:
                     for st2, fl in self.block(n.body, st1):
                         if fl is None or fl[0] == 'continue':
                             k2 = t.add(kvar, t.ONE) if kvar is not None else None
-                            v2 = LoopView(self, st2, entry, k2, nterm)
+                            v2 = LoopView(self, st2, entry, k2, nterm, self.loop_extra)
                             for label, cond, *rest in spec.inv(v2):
                                 self.emit(st2, '%s/loop[%s]/preserve/%s' % (fname, text, label), cond, kind='loop-preserve', tags=spec.tags)
                             if var0 is not None:
